@@ -605,10 +605,119 @@ def run_multi(item, extra):
             "findings": findings, "sample": None}
 
 
+# ------------------------------------------------------------------------------------------
+# task-token callbacks around a restart
+# ------------------------------------------------------------------------------------------
+def token_case(i):
+    """A .waitForTaskToken Task whose worker also sends an ordinary (ignorable) reply, a client that presents the token
+    with SendTaskSuccess (and keeps retrying once a second while the API does not answer 200), and 1-2 engine crashes
+    placed around those messages: a callback the API accepted completes its task."""
+    seed = common.run_seed(4700000 + i)
+    rng = random.Random(seed)
+    F = E.GM.FN_ARN
+    task = {"Type": "Task", "Resource": "arn:aws:states:local::rpcmessage:invoke.waitForTaskToken",
+            "Parameters": {"FunctionName": F + "cb", "Payload": {"token.$": "$$.Task.Token", "k.$": "$.k"}},
+            "ResultPath": "$.cb", "Next": "Z"}
+    d = {"StartAt": "T", "States": {"T": task, "Z": {"Type": "Pass", "End": True}}}
+    reply = rng.choice([[{"noreply": True}], [{"ok": {"op": "const", "value": {"ordinary": "reply"}}, "delay": rng.choice([0.5, 1.5, 2.5])}]])
+    cfg = E.policy_cfg(rng.choice(["canonical", "shuffle", "latency-small"]))
+    cfg.update(execution_ttl=120, transport=rng.choice(["asyncio", "asyncio", "blocking"]))
+    scn = {"machines": {"m": {"definition": d, "type": "STANDARD", "family": "token"}},
+           "executions": [{"machine": "m", "input": {"k": 3}, "name": "e1"}], "script": {"cb": reply},
+           "functions": ["cb"], "config": cfg}
+    t_cb = rng.choice([1.0, 2.0, 3.0])
+    crashes = sorted(rng.sample([0.3, 0.8, 1.2, 1.7, 2.2, 2.7, 3.3, 4.0], rng.choice([1, 1, 2])))
+    downs = [rng.choice([0.2, 0.6, 1.5]) for _ in crashes]
+    return seed, {"scn": scn, "t_cb": t_cb, "crashes": crashes, "downs": downs}
+
+
+def check_token(case, seed):
+    scn = case["scn"]
+    state = {"accepted": None, "attempts": 0, "crashes": 0, "idle": []}
+
+    def before(res):
+        sim, w = res.sim, res.world
+        node = w.nodes[0]
+        t0 = sim.now
+
+        def callback():
+            if state["accepted"] is not None or state["attempts"] > 40:
+                return
+            toks = [r["payload"]["token"] for r in w.workers.requests if isinstance(r["payload"], dict) and "token" in r["payload"]]
+            state["attempts"] += 1
+            if toks and not node.dead:
+                rec = w.api.call(node, "SendTaskSuccess", {"taskToken": toks[-1], "output": json.dumps({"answer": 42})})
+
+                def look(rec=rec):
+                    if rec.get("done") and rec.get("status") == 200 and state["accepted"] is None:
+                        state["accepted"] = sim.now
+                    elif state["accepted"] is None:
+                        sim.call_later(1.0, callback, None, kind="client", label="cb-retry")
+                sim.call_later(0.45, look, None, kind="client", label="cb-look")
+            else:
+                sim.call_later(1.0, callback, None, kind="client", label="cb-retry")
+        sim.call_at(t0 + case["t_cb"], callback, None, kind="client", label="cb")
+        for at, down in zip(case["crashes"], case["downs"]):
+            def crash(down=down):
+                if node.dead:
+                    return
+                state["idle"].append(node_idle(sim))
+                state["crashes"] += 1
+                node.crash("injected")
+                node.teardown()
+                sim.call_later(down, lambda: (node.restart(), sim.count("restart")) if node.dead else None, None,
+                               kind="fault", label="restart")
+            sim.call_at(t0 + at, crash, None, kind="fault", label="crash")
+    mon = NotifyMonitor("C04", check_shape=False)
+    bm = BrokerMonitor(drain=False, carrier=False)
+    res = run_scenario(scn, seed, monitors=[mon, bm], before_run=before, horizon=1200, settle=200,
+                       settle_if=lambda r: unfinished(r, mon))
+    ctx = "token callback at %.1fs, crashes at %s (down %s), reply %s" % (case["t_cb"], case["crashes"], case["downs"],
+                                                                          "none" if scn["script"]["cb"][0].get("noreply") else "ordinary")
+    findings = []
+    arn = res.exec_arns.get("e1")
+    out = outcome(res, arn) if arn else None
+    requested = any(isinstance(r["payload"], dict) and "token" in r["payload"] for r in res.world.workers.requests)
+    if state["accepted"] is not None:
+        ok = out is not None and out[0] == "SUCCEEDED" and (json.loads(out[1]) or {}).get("cb") == {"answer": 42}
+        if not ok:
+            findings.append({"property": PROP, "rule": "accepted-callback-did-not-complete-task", "witness":
+                             "idle" if all(state["idle"]) else "mid-handling",
+                             "detail": "%s: SendTaskSuccess answered 200 at t=%.2f, the execution ended %r" % (
+                                 ctx, state["accepted"] - res.sim.epoch, out and out[:1] + out[2:])})
+    if out is None and arn in mon.seq:
+        findings.append({"property": PROP, "rule": "never-terminal", "witness": None, "detail": ctx})
+    findings += never_acked(res, ctx, None)
+    if res.sim.errors and not findings:
+        findings.append({"property": PROP, "rule": "engine-exception-after-restart", "witness": res.sim.errors[0][2].split("(")[0],
+                         "detail": "%s: %r" % (ctx, res.sim.errors[0][:3])})
+    return res, state, findings
+
+
+def run_token(item, extra):
+    seed, case = token_case(item)
+    res, state, findings = check_token(case, seed)
+    for f in findings:
+        f.setdefault("seed", seed)
+        f["token_case"] = case
+    probes = {"token:runs": 1, "token:callback-accepted": 1 if state["accepted"] is not None else 0,
+              "token:crashes": state["crashes"], "token:callback-attempts": state["attempts"]}
+    return {"evaluations": 1, "sim_seconds": res.sim.now - res.sim.epoch, "steps": res.sim.steps,
+            "broker_ops": len(res.sim.broker.oplog), "interleavings": [res.sim.order_hash.hexdigest()[:16]],
+            "distinct": [common.sha(["token", case["t_cb"], case["crashes"], case["downs"], res.sim.order_hash.hexdigest()])],
+            "faults": {"crash": state["crashes"], "restart": res.sim.stats.get("restart", 0)}, "probes": probes,
+            "findings": findings, "sample": None}
+
+
 def main(argv):
     if len(argv) > 1 and argv[0] == "--replay":
         with open(argv[1]) as f:
             rec = json.load(f)
+        if rec.get("token_case"):
+            res, state, findings = check_token(rec["token_case"], rec["seed"])
+            same = [f for f in findings if f["rule"] == rec["rule"]]
+            print("replay %s: %s" % (argv[1], "REPRODUCED rule=%s%s" % (rec["rule"], common.digest_note(rec, same)) if same else "not reproduced"))
+            return 1 if same else 0
         if rec.get("multi_case"):
             res, state, findings = check_multi(rec["multi_case"], rec["seed"])
             same = [f for f in findings if f["rule"] == rec["rule"]]
@@ -634,6 +743,8 @@ def main(argv):
     n_multi = 1500 if tier == "quick" else 60000
     for r in common.run_batch("checks.c04", "run_multi", range(n_multi), extra):
         rep.absorb(r)
+    for r in common.run_batch("checks.c04", "run_token", range(400 if tier == "quick" else 16000), extra):
+        rep.absorb(r)
     rep.exhaustive = True
     return rep.finish(
         rule="for each scenario of the corpus (%d scenarios: sequential, retry, catch, time-out, Parallel, Map, "
@@ -643,7 +754,10 @@ def main(argv):
              "schedules), restart after a seeded down-time in %s s with broker redelivery; durable: broker queues and "
              "the JSON store file; volatile: everything in the engine. Oracles: exactly one terminal notification per "
              "started execution, no correlation id requested twice, crash-free outcome preserved when the engine was "
-             "idle at the crash; distinct = distinct (scenario, crash point, down-time)" % (len(names), DOWNTIMES),
+             "idle at the crash, no (function, payload) requested more often than in the crash-free run (idle crashes), no reply left "
+             "unacknowledged by the restarted engine; a further sampled slice places 1-2 crashes around a task-token callback "
+             "(SendTaskSuccess retried until answered 200, with and without an ordinary worker reply): an accepted callback "
+             "completes its task; distinct = distinct (scenario, crash point, down-time)" % (len(names), DOWNTIMES),
         assumptions=["single engine instance, file-backed ASL store", "workers keep running and reply while the engine is down",
                      "one crash per run at quick tier"])
 
